@@ -27,14 +27,14 @@ type jkv struct {
 	v jv
 }
 
-func jNull() jv              { return jv{kind: 'n'} }
-func jBool(b bool) jv        { return jv{kind: map[bool]byte{true: 't', false: 'f'}[b]} }
-func jNum(s string) jv       { return jv{kind: '#', s: s} }
-func jStr(s string) jv       { return jv{kind: '"', s: s} }
-func jArr(xs ...jv) jv       { return jv{kind: '[', arr: xs} }
-func jObj(kvs ...jkv) jv     { return jv{kind: '{', obj: kvs} }
-func jRaw(s string) jv       { return jv{kind: 'r', s: s} }
-func kv(k string, v jv) jkv  { return jkv{k, v} }
+func jNull() jv             { return jv{kind: 'n'} }
+func jBool(b bool) jv       { return jv{kind: map[bool]byte{true: 't', false: 'f'}[b]} }
+func jNum(s string) jv      { return jv{kind: '#', s: s} }
+func jStr(s string) jv      { return jv{kind: '"', s: s} }
+func jArr(xs ...jv) jv      { return jv{kind: '[', arr: xs} }
+func jObj(kvs ...jkv) jv    { return jv{kind: '{', obj: kvs} }
+func jRaw(s string) jv      { return jv{kind: 'r', s: s} }
+func kv(k string, v jv) jkv { return jkv{k, v} }
 func (j jv) with(k string, v jv) jv {
 	o := jv{kind: '{', obj: append(append([]jkv{}, j.obj...), jkv{k, v})}
 	return o
@@ -112,13 +112,16 @@ var c07Queries = []string{
 	// corner-case schema shapes: an interface nothing implements, abstract types, root __typename
 	"{ ghost { x } }", "{ ghost { __typename } }", "{ ghost { ... on Ghost { x } } }", "{ __typename }", "{ __typename ping }",
 	"{ named { name } }", "{ thing { __typename ... on User { name } } }", "{ named { ... on User { id } } }",
+	// introspection (answered by the gateway itself, also in the middle of a batch)
+	"{ __schema { queryType { name } } }", "{ __type(name: \"User\") { name kind } }",
 	// invalid against the schema, or not GraphQL at all
 	"{ nope }", "{ ping { x } }", "{ ping", "}", " ", "query", "{ echo(s: 1) }", "subscription { x }", "{ user { id } }",
 	"fragment F on Query { ping }", "{ ...F }", "query($s: Nope){ echo(s: $s) }", "\u0000", "[", "{ \"ping\" }",
 }
 
 var c07ValidQueries = []string{"{ ping }", "query Q { ping }", "{ echo(s: \"x\") }", "query($s: String){ echo(s: $s) }", "mutation { inc }", "{ user(id: \"1\") { id name } }",
-	"{ ghost { x } }", "{ ghost { __typename } }", "{ __typename }", "{ named { name } }", "{ thing { __typename ... on User { name } } }"}
+	"{ ghost { x } }", "{ ghost { __typename } }", "{ __typename }", "{ named { name } }", "{ thing { __typename ... on User { name } } }",
+	"{ __schema { queryType { name } } }", "{ __type(name: \"User\") { name kind } }"}
 
 var c07ContentTypes = []string{"application/json", "text/plain", "", "application/graphql", "application/json; charset=utf-8",
 	"application/json;charset=utf-8", "text/plain; charset=us-ascii", "APPLICATION/JSON", "application/json ; charset=utf-8",
